@@ -331,17 +331,17 @@ def x_nested(b, fname, rec):
     """X-nested: hoist `#[cold] fn barrier(this: &Context, x: GcPtr) { .. }`; returns (body, hoisted_methods)."""
     hoisted = []
     while True:
-        m = re.search(r'(?:#\[cold\]\s*)?fn (\w+)\(this: &Context, (\w+): GcPtr\)\s*\{', b)
+        m = re.search(r'(?:#\[cold\]\s*)?fn (\w+)\((\w+): &Context, (\w+): GcPtr\)\s*\{', b)
         if not m:
             break
         i = b.index('{', m.end() - 1)
         j = match_close(b, i)
         inner = b[i + 1:j]
-        inner = re.sub(r'\bthis\.', 'self.', inner)
-        name, arg = m.group(1), m.group(2)
+        inner = re.sub(r'\b%s\.' % m.group(2), 'self.', inner)
+        name, arg = m.group(1), m.group(3)
         new = '%s__%s' % (fname, name)
         b = b[:m.start()] + b[j + 1:]
-        b, k = re.subn(r'\b%s\(&self, (\w+)\);' % name, r'self.%s(\1);' % new, b)
+        b, k = re.subn(r'\b%s\(&?self, (\w+)\);' % name, r'self.%s(\1);' % new, b)        # `barrier(&self, p)` or `barrier(self, p)` (self is already a reference)
         if k != 1:
             raise Unsupported('nested fn %s: expected exactly one call' % name)
         hoisted.append((new, arg, inner))
